@@ -717,8 +717,8 @@ type GhostStmt struct {
 	Src         string
 	Soft        bool     // cut soft ...: nothing is forgotten; the focused context is only tried first
 	Keep        []string // cut keep(l1, l2, ...): labels of the facts every later obligation sees in its focused context
-	Cut         bool    // cut @ ...: after the statements listed before it at the same place, later obligations of the dominated code forget every earlier assumption except the requires and the facts asserted here
-	Assert      *Clause // assert [label] EXPR @ ...: an intermediate assertion (proved at that point, then available as a fact)
+	Cut         bool     // cut @ ...: after the statements listed before it at the same place, later obligations of the dominated code forget every earlier assumption except the requires and the facts asserted here
+	Assert      *Clause  // assert [label] EXPR @ ...: an intermediate assertion (proved at that point, then available as a fact)
 }
 
 type FuncContract struct {
@@ -743,6 +743,9 @@ type FuncContract struct {
 	Uses      []string // axioms made available to this function's obligations
 	IsLemma   bool     // no function body: the ensures clauses are proved from the used axioms alone
 	Exclusive bool     // runs while the receiver is not shared between goroutines (constructors, the sequential phase): guard obligations do not apply
+	OwnWrites []string // own_writes D1, D2: the function's OWN store instructions (callees excluded) touch only these families (syntactic scan)
+	HasOwnW   bool
+	AssumePre []string // callees whose preconditions are ASSUMED at this function's call sites (listed as an assumption in the evidence)
 	Abstracts []string // abstractions of the encoding this contract was written with (e.g. "select")
 	UFArith   bool     // symbolic float products / quotients are uninterpreted (fmulU / fdivU)
 	Induct    string   // smtlemma: induction variable (Int, >= 0)
@@ -776,7 +779,7 @@ var clauseKeywords = map[string]bool{
 	"invariant": true, "trusted": true, "inline": true, "mode": true, "params": true,
 	"maypanic": true, "fdef": true, "pure": true, "noalloc": true, "set": true, "reason": true,
 	"uses": true, "lemma": true, "exit": true, "leave": true, "cut": true, "free_ensures": true, "ensures_local": true,
-	"atomic": true, "exclusive": true, "abstracts": true, "ufarith": true, "smtlemma": true, "induct": true, "vars": true, "claim": true, "pattern": true, "smtaxiom": true, "smtdef": true, "guarded": true, "assert": true,
+	"atomic": true, "exclusive": true, "abstracts": true, "assume_pre": true, "own_writes": true, "ufarith": true, "smtlemma": true, "induct": true, "vars": true, "claim": true, "pattern": true, "smtaxiom": true, "smtdef": true, "guarded": true, "assert": true,
 }
 
 type rawLine struct {
@@ -936,6 +939,19 @@ func ParseSpecFile(path, pkgPath string) (*SpecFile, error) {
 				cur.UFArith = true
 			case "exclusive":
 				cur.Exclusive = true
+			case "own_writes":
+				cur.HasOwnW = true
+				for _, a := range strings.Split(rest, ",") {
+					if a = strings.TrimSpace(a); a != "" && a != "nothing" {
+						cur.OwnWrites = append(cur.OwnWrites, a)
+					}
+				}
+			case "assume_pre":
+				for _, a := range strings.Split(rest, ",") {
+					if a = strings.TrimSpace(a); a != "" {
+						cur.AssumePre = append(cur.AssumePre, a)
+					}
+				}
 			case "abstracts":
 				for _, a := range strings.Split(rest, ",") {
 					if a = strings.TrimSpace(a); a != "" {
@@ -1226,7 +1242,9 @@ func parseGhostStmt(rest string) (*GhostStmt, error) {
 	}
 	if len(where) == 3 && (where[0] == "before" || where[0] == "after") {
 		gs.When = where[0]
-		if _, err := fmt.Sscanf(where[1], "%d", &gs.CallOrdinal); err != nil {
+		if where[1] == "*" {
+			gs.CallOrdinal = -1 // every call site
+		} else if _, err := fmt.Sscanf(where[1], "%d", &gs.CallOrdinal); err != nil {
 			return nil, err
 		}
 		gs.Callee = where[2]
